@@ -138,6 +138,25 @@ def main(argv):
                                           "model": mo.get("R"), "agrees_with_model": agrees, "finding": fid,
                                           "kind": "the printed value does not read back as the original (%s)" % route})
                     continue
+                if kind == "hist":
+                    stats["hist"] = stats.get("hist", 0) + 1
+                    im, mo, sp = fields(impl), fields(model), fields(spec)
+                    want = sp.get("W")
+                    printed = text_of(im.get("P"))
+                    agrees = im.get("P") == mo.get("P")
+                    if "B" in im:
+                        prop_fail.append({"input": inp, "kind": "building the hash through HashSet/HashDelete failed: " + im["B"], "finding": None, "agrees_with_model": False})
+                        continue
+                    if not agrees or im.get("W") != want:
+                        corr_fail.append({"input": inp, "printed": printed, "implementation": "P=%s ;; W=%s" % (im.get("P"), im.get("W")), "model": model + " ;; " + spec,
+                                          "what": "printed bytes of a hash built by a history of hset/hdel vs print (hist_apply ops); abstract map of the harness vs hist_apply"})
+                    for route, got in (("the live hash looked up key by key (hget, len)", im.get("LV")),
+                                       ("evaluated route: EvalString of (str h), content key by key", im.get("E"))):
+                        if got != want:
+                            prop_fail.append({"input": inp, "printed": printed, "route": route, "implementation": got, "specification": want,
+                                              "agrees_with_model": agrees, "finding": None,
+                                              "kind": "a hash built by a history of hset/hdel: the printed text does not denote the live hash (%s)" % route})
+                    continue
                 if kind == "lit":
                     stats["lit"] += 1
                     im = fields(impl)
@@ -170,7 +189,7 @@ def main(argv):
                             prop_fail.append({"input": inp, "spelling": spelling, "implementation": v, "specification": ref,
                                               "agrees_with_model": v == model, "finding": fid,
                                               "kind": "a spelling in one of the numeric notations is not read as one number"})
-    c.coverage["compared"] = stats["val"] + stats["lit"] + stats["quote"]
+    c.coverage["compared"] = stats["val"] + stats["lit"] + stats["quote"] + stats.get("hist", 0)
     c.coverage["compared_by_kind"] = stats
     c.coverage["traces_validated_against_impl"] = stats["val"] + stats["lit"] + stats["quote"]
     # ---- decide ----
